@@ -511,3 +511,79 @@ def wrapper_start(inst, st, key, cone):
             ind += k * k
         out[key + 's'] = lst
     return out
+
+
+# ----------------------------------------------------------------------------- gp / modeling op / variants
+
+def gen_gp(rng):
+    n = rng.randint(1, 3)
+    mnl = rng.randint(0, 2)
+    K = [rng.randint(1, 3) for _ in range(mnl + 1)]
+    tot = sum(K)
+    F = rmat(rng, tot, n)
+    g = []
+    for i, k in enumerate(K):
+        if i == 0:
+            g += rvec(rng, k)
+        else:
+            tgt = rng.uniform(0.1, 0.8)
+            g += [round(math.log(tgt / k), 6)] * k     # feasible at x = 0
+    # box |x_j| <= 2 keeps the problem bounded
+    G = [0.0] * (2 * n * n)
+    for j in range(n):
+        G[j * 2 * n + j] = 1.0
+        G[j * 2 * n + n + j] = -1.0
+    return {'kind': 'gp', 'n': n, 'p': 0, 'K': K, 'F': {'m': tot, 'n': n, 'v': F, 'sparse': False}, 'g': g,
+            'dims': {'l': 2 * n, 'q': [], 's': []},
+            'G': {'m': 2 * n, 'n': n, 'v': G, 'sparse': bool(rng.random() < 0.3)}, 'h': [2.0] * (2 * n),
+            'A': {'m': 0, 'n': n, 'v': [], 'sparse': False}, 'b': []}
+
+
+def gen_op(rng):
+    inst = gen_conelp(rng, 'op', dims={'l': rng.randint(2, 6), 'q': [], 's': []}, sparse=False, ml_ge_n=True)
+    inst['format'] = rng.choice(['dense', 'sparse'])
+    return inst
+
+
+def make_infeasible(inst):
+    """two contradictory rows x_1 <= -1, -x_1 <= -1 in front of the 'l' block"""
+    n = inst['n']
+    cd = inst['G']['m']
+    G = inst['G']['v']
+    newG = []
+    for j in range(n):
+        newG += [1.0 if j == 0 else 0.0, -1.0 if j == 0 else 0.0] + G[j * cd:(j + 1) * cd]
+    out = dict(inst)
+    out['G'] = dict(inst['G'], m=cd + 2, v=newG)
+    out['h'] = [-1.0, -1.0] + list(inst['h'])
+    out['dims'] = dict(inst['dims'], l=inst['dims']['l'] + 2)
+    out.pop('primalstart', None)
+    out.pop('dualstart', None)
+    out.pop('initvals', None)
+    out['infeasible'] = True
+    return out
+
+
+def solve_gp(inst, m, options=None, kktsolver=None):
+    from cvxopt import solvers
+    kw = {}
+    if options is not None:
+        kw['options'] = options
+    if kktsolver is not None:
+        kw['kktsolver'] = kktsolver
+    return solvers.gp(list(inst['K']), m['F'], m['g'], m['G'], m['h'], **kw)
+
+
+def solve_op(inst, m, options=None, solver='default'):
+    from cvxopt import modeling, matrix
+    x = modeling.variable(inst['n'], 'x')
+    cons = [m['G'] * x <= m['h']]
+    if inst['p']:
+        cons.append(m['A'] * x == m['b'])
+    prob = modeling.op(modeling.dot(m['c'], x), cons)
+    kw = {}
+    if options is not None:
+        kw['options'] = options
+    prob.solve(inst.get('format', 'dense'), solver, **kw)
+    return {'status': prob.status, 'x': x.value, 'multipliers': [c.multiplier.value for c in cons],
+            'objective': prob.objective.value()}
